@@ -155,4 +155,5 @@ def build(methods=("HMAC-SHA1",), rsa_pub=None):
     st = Store1()
     st.clients["ca"] = Client1("ca", "secret-a", "https://a/cb", rsa_pub)
     st.clients["cb"] = Client1("cb", "secret-b", "https://b/cb", rsa_pub)
+    st.clients["cw"] = Client1("cw", " secret-w\t", "https://w/cb", rsa_pub)
     return st, Server1(st, methods), Protector1(st, methods)
